@@ -310,10 +310,14 @@ def gen_case(rng, tier):
         fns = [_gen_fn(rng, d, kind) for _ in range(dim)]
         allow_danger = d <= 2 and kind != "general"
         calls = []
-        for _ in range(rng.randint(2, 6)):
+        shared = rng.random() < 0.4  # one query array object, overwritten in place between the calls
+        nshared = rng.randint(1, 4)
+        if shared:
+            strata.append("shared_array")
+        for _ in range(rng.randint(3, 6) if shared else rng.randint(2, 6)):
             outside = rng.random() < 0.12
             pts, kinds = [], []
-            for j in range(rng.randint(1, 5)):
+            for j in range(nshared if shared else rng.randint(1, 5)):
                 p, k = _gen_point(rng, d, low, h, npt, allow_danger, outside and j == 0)
                 pts.append(p)
                 kinds.append(k)
@@ -321,7 +325,7 @@ def gen_case(rng, tier):
                 # all points at grid nodes
                 pts = [[frac(low[i] + rng.randint(0, npt[i] - 1) * h[i]) for i in range(d)] for _ in pts]
                 strata.append("nodes_only")
-            if rng.random() < 0.2 and not (outside and len(pts) == 1):
+            if rng.random() < 0.2 and not (outside and len(pts) == 1) and not shared:
                 pts.append(list(pts[-1]))  # the same point twice in one batch
                 strata.append("dup_points")
             if rng.random() < 0.5:
@@ -339,7 +343,7 @@ def gen_case(rng, tier):
                 calls.append({"op": "interp", "pts": pts})
         case = {"d": d, "low": [frac(v) for v in low], "h": [frac(v) for v in h], "npt": npt, "fns": fns, "calls": calls,
                 "rev": rng.random() < 0.5, "rot": rng.randrange(7),
-                "adaptive": True,
+                "adaptive": True, "shared": shared,
                 # assign_values without the indices argument (indices recovered from the coordinates)
                 "noidx": rng.random() < 0.3,
                 # the call (if any) before which the outside-fed table is NOT given the new values
@@ -356,6 +360,23 @@ def gen_case(rng, tier):
 # ----------------------------------------------------------------------------- real code
 def _arr(pts, d):
     return np.array([[float(F(p[i])) for p in pts] for i in range(d)], dtype=float)
+
+
+class Buf:
+    """Query arrays of one history. In the stratum `shared` ONE ndarray object is reused for consecutive calls with
+    the same number of points and overwritten in place (x[:] = ...) between them, as a caller updating its state
+    vector does; otherwise every call gets a fresh array."""
+
+    def __init__(self, case):
+        self.shared, self.x = bool(case.get("shared")), None
+
+    def get(self, pts, d):
+        new = _arr(pts, d)
+        if self.shared and self.x is not None and self.x.shape == new.shape:
+            self.x[:] = new
+            return self.x
+        self.x = new
+        return new
 
 
 def _res(v):
@@ -402,9 +423,10 @@ def _run_std(case, fn):
         t = IT(low, high, npt, fn, dim=dim)
     except Exception as e:
         return [{"ctor": err_kind(e)}]
+    buf = Buf(case)
     for call in case["calls"]:
-        x = _arr(call["pts"], d)
-        if len(call["pts"]) == 1 and case.get("rot", 0) % 2 == 0:
+        x = buf.get(call["pts"], d)
+        if len(call["pts"]) == 1 and case.get("rot", 0) % 2 == 0 and not case.get("shared"):
             x = x[:, 0]  # a single point may be passed as a 1-d array (standard table only)
         try:
             out.append(_res(t.interpolate(x) if call["op"] == "interp" else t.gradient(x, call["axis"])))
@@ -418,8 +440,9 @@ def _run_adp(case, fn):
     d, dim = case["d"], len(case["fns"])
     a = _mk_adaptive(case, AT, h, low, fn)
     out = []
+    buf = Buf(case)
     for call in case["calls"]:
-        x = _arr(call["pts"], d)
+        x = buf.get(call["pts"], d)
         try:
             out.append(_res(a.interpolate(x) if call["op"] == "interp" else a.gradient(x, call["axis"])))
         except Exception as e:
@@ -439,8 +462,9 @@ def _run_asg(case):
     a = _mk_adaptive(case, AT, h, low, None)
     fn = Fn(case)
     out = []
+    buf = Buf(case)
     for ci, call in enumerate(case["calls"]):
-        x = _arr(call["pts"], d)
+        x = buf.get(call["pts"], d)
         entry = {}
         try:
             ca, ia = a.quadrature_points_from_coordinates(x, remove_known_points=False)
@@ -588,13 +612,14 @@ def oracle(case):
     t = IT(low, high, npt, fn_s, dim=dim)
     a = _mk_adaptive(case, AT, h, low, fn_a)
     use_adp = case.get("adaptive", True)
+    buf = Buf(case)  # in the stratum `shared` the SAME array object goes to both tables, call after call
     for ci, call in enumerate(case["calls"]):
         pts = call["pts"]
-        x = _arr(pts, d)
+        x = buf.get(pts, d)
         inside = all(_in_box(case, p) for p in pts)
         bad_axis = call["op"] == "grad" and not (0 <= call["axis"] < d)
         std = None
-        xs_ = x[:, 0] if (len(pts) == 1 and case.get("rot", 0) % 2 == 0) else x  # single point as a 1-d array
+        xs_ = x[:, 0] if (len(pts) == 1 and case.get("rot", 0) % 2 == 0 and not case.get("shared")) else x  # single point as a 1-d array
         try:
             std = np.atleast_2d(t.interpolate(xs_) if call["op"] == "interp" else t.gradient(xs_, call["axis"]))
         except ValueError as e:
